@@ -193,6 +193,8 @@ def read_pbp(path, prefix, **kwargs):
                     tmp_nfct = 1.0
                     for j in range(nfct[i]):
                         t = fp.read(8 * nsrc[i])
+                        if len(t) < 8 * nsrc[i]:
+                            raise Exception("Incomplete record in file %s, the file seems to be truncated." % (ls[rep]))
                         t = fp.read(8 * nsrc[i])
                         tmp_rw = struct.unpack('d' * nsrc[i], t)
                         tmp_nfct *= np.mean(np.asarray(tmp_rw))
